@@ -363,12 +363,28 @@ def holiday_args(draw):
                 auto_country=draw(flags), auto_timezone=draw(flags), op=op, time=start, end=end)
 
 
+@st.composite
+def mixed_args(draw):
+    """Contexts without zone: start and end naive or aware independently (the result carries the zone of the input)."""
+    start = draw(st.datetimes(min_value=dt.datetime(2020, 1, 1), max_value=dt.datetime(2028, 1, 1)))
+    end = start + dt.timedelta(hours=draw(st.integers(1, 400)))
+    za, zb = draw(st.sampled_from(ZONES)), draw(st.sampled_from(["Europe/Paris", "Asia/Tokyo", "America/New_York", "UTC"]))
+    if draw(st.booleans()):
+        start = start.replace(tzinfo=zoneinfo.ZoneInfo(za))
+    if draw(st.booleans()):
+        end = end.replace(tzinfo=zoneinfo.ZoneInfo(zb))
+    op = draw(st.sampled_from(["intervals", "intervals", "next_change"]))
+    coords_ = draw(st.sampled_from([None, None, (40.71, -74.0)]))
+    return dict(expr=draw(st.sampled_from(["10:00-12:00", "Mo-Fr 08:00-18:00; Sa 09:00-13:00 unknown", "sunrise-sunset", "22:00-02:00 \"late\""])), timezone=None, country=None,
+                coords=coords_, auto_country=draw(flags), auto_timezone=False if coords_ else draw(flags), op=op, time=start, end=end if op == "intervals" else None)
+
+
 def run(tier):
     n_examples = 1500 if tier == "quick" else 40000
 
     @seed(SEED)
     @settings(max_examples=n_examples, database=None, deadline=None, derandomize=False, suppress_health_check=list(HealthCheck), print_blob=False)
-    @given(args=st.one_of(general_args(), general_args(), general_args(), sun_args(), sun_args(), transition_args(), transition_args(), holiday_args()))
+    @given(args=st.one_of(general_args(), general_args(), general_args(), sun_args(), sun_args(), transition_args(), transition_args(), holiday_args(), mixed_args()))
     def prop(args):
         args = dict(args)
         if args["op"] != "intervals":
@@ -448,7 +464,7 @@ def run(tier):
             "evaluations": STATS["examples"],
             "distinct_nontrivial": len(STATS["nontrivial"]),
             "oracle_comparisons": STATS["oracle_calls"],
-            "rule": "Hypothesis examples: expression (1500 sentences from the harness generator for this seed + invalid ones) x timezone (None / any zone known to both CPython's zoneinfo and chrono-tz) x country (valid codes, near misses, None) x coords (valid incl. poles and antimeridian, invalid, None) x auto_country / auto_timezone in {None, True, False} x op (state + is_*, next_change, intervals with optional end) x datetime (naive or aware in any zone, fold 0/1; 2018-2032, 1990-2100, year 1..9999 and DST instants); an eighth of the examples come from a holiday strategy (PH / SH expressions x explicit country x coordinates in another country or at sea, windows of 20-200 days), a quarter from a sun-event strategy (9 sun expressions x 8 cities x timezone / auto_* combinations) and a quarter from a DST-transition strategy (expressions with bounds inside the repeated or skipped hour of 13 real transitions, zone in the context, in the input, or both): exception class, validate, str, repr (literal_eval), normalize, reparse of str, and the evaluation result are compared with `ohv py-oracle` (Rust core with the documented equivalent context) on (naive local fields, zone key, fold); non-trivial = aware datetime, or a timezone / coords context",
+            "rule": "Hypothesis examples: expression (1500 sentences from the harness generator for this seed + invalid ones) x timezone (None / any zone known to both CPython's zoneinfo and chrono-tz) x country (valid codes, near misses, None) x coords (valid incl. poles and antimeridian, invalid, None) x auto_country / auto_timezone in {None, True, False} x op (state + is_*, next_change, intervals with optional end) x datetime (naive or aware in any zone, fold 0/1; 2018-2032, 1990-2100, year 1..9999 and DST instants); a ninth of the examples come from a mixed naive/aware strategy (context without zone, start and end naive or aware independently), a ninth from a holiday strategy (PH / SH expressions x explicit country x coordinates in another country or at sea, windows of 20-200 days), a quarter from a sun-event strategy (9 sun expressions x 8 cities x timezone / auto_* combinations) and a quarter from a DST-transition strategy (expressions with bounds inside the repeated or skipped hour of 13 real transitions, zone in the context, in the input, or both): exception class, validate, str, repr (literal_eval), normalize, reparse of str, and the evaluation result are compared with `ohv py-oracle` (Rust core with the documented equivalent context) on (naive local fields, zone key, fold); non-trivial = aware datetime, or a timezone / coords context",
             "samples": STATS["samples"][:6] or ["(no non-trivial example)"],
             "labels": STATS["labels"],
             "skipped_inputs_without_core_equivalent": STATS["skipped"],
